@@ -31,12 +31,14 @@ func (p ArrayPattern) Bind(ctx context.Context, local Scope, value Value) (conte
 	}
 
 	extraElements := make(map[int]int)
+	hasRest := false
 	for i, item := range p.items {
 		if _, is := item.pattern.(ExtraElementPattern); is {
 			if len(extraElements) == 1 {
 				return ctx, EmptyScope, fmt.Errorf("non-deterministic pattern is not supported yet")
 			}
 			extraElements[i] = array.Count() - len(p.items)
+			hasRest = true
 		}
 		if item.fallback != nil {
 			if len(extraElements) == 1 {
@@ -50,7 +52,8 @@ func (p ArrayPattern) Bind(ctx context.Context, local Scope, value Value) (conte
 		return ctx, EmptyScope, fmt.Errorf("length of array %s shorter than array pattern %s", array, p)
 	}
 
-	if len(extraElements) == 0 && len(p.items) < array.Count() {
+	// Only ...rest absorbs surplus elements; a fallback stands for at most one.
+	if !hasRest && len(p.items) < array.Count() {
 		return ctx, EmptyScope, fmt.Errorf("length of array %s longer than array pattern %s", array, p)
 	}
 
